@@ -3,7 +3,7 @@
    codes 11..19: implementation violates the specification predicate (plain sorted map / "newest write wins"),
    checked on the observed outputs without the model. *)
 From Coq Require Import List NArith Bool.
-From RV Require Import Base.Bytes Model.LsmBase Model.LsmCompaction Model.Lsm.
+From RV Require Import Base.Bytes Model.LsmBase Model.LsmCompaction Model.Lsm Model.LsmReplay.
 Import ListNotations.
 Open Scope N_scope.
 
@@ -11,7 +11,7 @@ Inductive oact :=
 | OPut (k v : bytes) (rot : bool) | ODel (k : bytes) (rot : bool)
 | OGet1 (k : bytes) | OGet2 (r : getres)
 | OScan1 (p : bytes) | OScan2 (r : list (bytes * bytes))
-| OF1 | OF2 | OC1 (some : bool) | OC2
+| OF1 | OF2 | OC1 (ocs : option changeset) (* the change set Compact returned (observed when it is applied) / nil *) | OC2
 | OC1F (* the compaction step hit an injected storage read fault and Compact returned the error *)
 | OReadErr (* the following Get / ScanPrefix returned an error *)
 | ODupFile. (* a table file name (NNNNNN.sst) was created or saved a second time *)
@@ -20,7 +20,7 @@ Inductive oact :=
 Definition reads := (list getres * list (list (bytes * bytes)))%type.
 
 Inductive cstep :=
-| CStep (some : bool)                       (* Compact returned a change set *)
+| CStep (ocs : option changeset)             (* the change set Compact returned (level, output tables, removed tables) / nil *)
         (failed : bool)                      (* Compact returned an error (injected storage read fault) *)
         (extra : list table)                 (* level-0 tables added between Compact and the apply *)
         (ranges : list (list (bytes * bytes))) (* per level (startKey, endKey) of every table afterwards *)
@@ -62,32 +62,37 @@ Fixpoint strictly_ascending (l : list (bytes * bytes)) : bool :=
 
 (* ---------- C07 ---------- *)
 
-Definition to_act (o : oact) : act :=
+Definition to_ract (o : oact) : ract :=
   match o with
-  | OPut k v _ => APut k v | ODel k _ => ADel k
-  | OGet1 k => AGet1 k | OGet2 _ => AGet2
-  | OScan1 p => AScan1 p | OScan2 _ => AScan2
-  | OF1 => AF1 | OF2 => AF2 | OC1 _ => AC1 | OC2 => AC2 | OC1F => AC1F
-  | OReadErr | ODupFile => AF1 (* not model actions: skipped by model_codes *)
+  | OPut k v r => RPut k v r | ODel k r => RDel k r
+  | OGet1 k => RGet1 k | OGet2 _ => RGet2
+  | OScan1 p => RScan1 p | OScan2 _ => RScan2
+  | OF1 => RF1 | OF2 => RF2 | OC1 ocs => RC1 ocs | OC2 => RC2 | OC1F => RC1F
+  | OReadErr | ODupFile => RF1 (* not model actions: skipped by model_codes *)
   end.
 
 Definition obs_code (o : oact) (m : obs) : list N :=
   match o, m with
-  | OPut _ _ r, ORot r' | ODel _ r, ORot r' => if Bool.eqb r r' then [] else [2]
   | OGet2 r, OGet r' => if getres_eqb r r' then [] else [3]
   | OScan2 r, OScan r' => if kvs_eqb r r' then [] else [4]
-  | OC1 s, OComp s' => if Bool.eqb s s' then [] else [5]
   | _, _ => []
   end.
 
-Fixpoint model_codes (cfg : dbcfg) (st : db) (acts : list oact) : list N :=
+(* The scheduling decisions of the implementation (rotation, Compact's change set) are data of the replay machine
+   Model/LsmReplay.v; what is checked against the model is the task discipline (code 1), that every change set is legal for the
+   layout it was computed on (code 6) and every read result (3, 4). *)
+Fixpoint model_codes (st : db) (acts : list oact) : list N :=
   match acts with
   | [] => []
-  | OReadErr :: r | ODupFile :: r => model_codes cfg st r
+  | OReadErr :: r | ODupFile :: r => model_codes st r
   | o :: r =>
-      match step cfg st (to_act o) with
-      | None => [1]
-      | Some (st', m) => obs_code o m ++ model_codes cfg st' r
+      match rstep true st (to_ract o) with
+      | Some (st', m) => obs_code o m ++ model_codes st' r
+      | None =>
+          match rstep false st (to_ract o) with
+          | Some (st', m) => 6 :: obs_code o m ++ model_codes st' r
+          | None => [1]
+          end
       end
   end.
 
@@ -145,34 +150,32 @@ Fixpoint ranges_sorted (l : list (bytes * bytes)) : bool :=
   end.
 Definition ranges_valid (rs : list (list (bytes * bytes))) : bool := forallb ranges_sorted (tl rs).
 
-Fixpoint c18_steps (cfg : ccfg) (keys prefixes : list bytes) (mcl : nat) (ll : levels) (all : list table)
-         (steps : list cstep) : list N :=
+Fixpoint c18_steps (keys prefixes : list bytes) (ll : levels) (all : list table) (steps : list cstep) : list N :=
   match steps with
   | [] => []
-  | CStep some failed extra ranges post :: r =>
-      let ocs := fst (compact table_size cfg mcl ll) in
-      let '(ll2, mcl') := compact_step table_size failed cfg mcl ll extra in
+  | CStep ocs failed extra ranges post :: r =>
+      let ll1 := add_l0 extra ll in
+      let ll2 := match ocs with Some cs => apply_cs cs ll1 | None => ll1 end in
       let all' := all ++ extra in
-      (* a failure can only come from a step that reads tables, i.e. one that would have produced a change set *)
-      (if Bool.eqb some (match ocs with Some _ => negb failed | None => false end) then [] else [5]) ++
-      (if failed && match ocs with Some _ => false | None => true end then [9] else []) ++
-      (if list_eqb (list_eqb kv_eqb) ranges (ranges_of ll2) then [] else [6]) ++
+      (* the change set must be legal for the layout it meets, also with the level-0 tables that arrived meanwhile *)
+      (match ocs with Some cs => if good_csb ll1 cs then [] else [6] | None => [] end) ++
+      (if failed && match ocs with Some _ => true | None => false end then [5] else []) ++
       reads_codes 3 4 post (model_reads keys prefixes ll2) ++
       spec_reads_codes 14 15 post (spec_reads keys prefixes all') ++
-      (if ranges_valid ranges then [] else [16]) ++
-      c18_steps cfg keys prefixes mcl' ll2 all' r
+      (if ranges_valid ranges && validb ll2 then [] else [16]) ++
+      c18_steps keys prefixes ll2 all' r
   end.
 
 Definition check_case (c : case) : list N :=
   match c with
   | C07 mem wal trig maxamp smallest target acts =>
-      let cfg := mkDbCfg mem wal 6 (mkCfg trig maxamp smallest target) in
-      model_codes cfg (init cfg) acts ++ spec_codes [] [] acts
+      (* the option values are recorded for replay; neither the model run nor the oracle depends on them *)
+      model_codes (rinit 6) acts ++ spec_codes [] [] acts
   | C18 trig maxamp smallest target layout keys prefixes pre steps =>
-      let cfg := mkCfg trig maxamp smallest target in
+      (if validb layout then [] else [9]) ++
       reads_codes 7 8 pre (model_reads keys prefixes layout) ++
       spec_reads_codes 17 18 pre (spec_reads keys prefixes (concat layout)) ++
-      c18_steps cfg keys prefixes 0 layout (concat layout) steps
+      c18_steps keys prefixes layout (concat layout) steps
   end.
 
 Definition run (cases : list (N * case)) : list (N * N) :=
